@@ -231,8 +231,10 @@ class Node:
         self._app_waiting_answer: dict[str, Application] = {}
         # An internal list of hop-by-hop IDs and peers waiting for a matching
         # answer message. The dictionary contains host identities as keys, with
-        # dictionaries of hop-by-hop ids and request sent timestamps as values.
-        self._peer_waiting_answer: dict[str, dict[int, float]] = {}
+        # dictionaries of (hop-by-hop id, end-to-end id) pairs and request
+        # sent timestamps as values. Hop-by-hop ids alone are only unique per
+        # connection and may be reused by a peer once a request is answered.
+        self._peer_waiting_answer: dict[str, dict[tuple[int, int], float]] = {}
         # An internal list that keeps track of which origin-host is expecting
         # which answer. The list is a dictionary with message identifiers as
         # keys and origin-hosts as answers. This is mostly required for keeping
@@ -958,7 +960,8 @@ class Node:
             if conn.host_identity not in self._peer_waiting_answer:
                 self._peer_waiting_answer[conn.host_identity] = {}
             waiting = self._peer_waiting_answer[conn.host_identity]
-            waiting[message.header.hop_by_hop_identifier] = time.time()
+            waiting[(message.header.hop_by_hop_identifier,
+                     message.header.end_to_end_identifier)] = time.time()
             receiving_app.receive_request(message)
             return
 
@@ -1536,9 +1539,11 @@ class Node:
 
         """
         message_id = message.header.hop_by_hop_identifier
+        waiting_id = (message.header.hop_by_hop_identifier,
+                      message.header.end_to_end_identifier)
         waiting_host_identity = None
         for host_identity, messages in self._peer_waiting_answer.items():
-            if message_id in messages:
+            if waiting_id in messages:
                 waiting_host_identity = host_identity
                 break
 
@@ -1546,7 +1551,7 @@ class Node:
             raise NotRoutable(
                 f"No peer is waiting for an answer with ID {hex(message_id)}")
 
-        del self._peer_waiting_answer[waiting_host_identity][message_id]
+        del self._peer_waiting_answer[waiting_host_identity][waiting_id]
 
         conn = None
         for connected_peer in self.connections.values():
@@ -1654,7 +1659,8 @@ class Node:
                 request or an answer.
 
         """
-        message_id = message.header.hop_by_hop_identifier
+        message_id = (message.header.hop_by_hop_identifier,
+                      message.header.end_to_end_identifier)
         if (not message.header.is_request and
                 conn.host_identity in self._peer_waiting_answer and
                 message_id in self._peer_waiting_answer[conn.host_identity]):
